@@ -423,7 +423,7 @@ def run_property(pid, spec, tier, seed, replay=None):
         for extra in range(1, 4):
             for job in spec["jobs"]:
                 j2 = dict(job)
-                j2["quick"] = job.get("thorough", job.get("quick", 100))
+                j2["quick"] = min(job.get("thorough", job.get("quick", 100)), 3 * job.get("quick", 100))
                 r = run_job(pid, j2, "quick", seed + extra, hb, runner_exe, tag="-search%d" % extra)
                 if "error" in r:
                     continue
